@@ -64,6 +64,7 @@ func c02extra(p *Program, r *Report) {
 	r.Floor("C02.bits", 1)
 
 	wholeInputRule(p, r, "C02.whole")
+	shadowedCaseRule(p, r, "C02.whole")
 	da := p.Func("", "DecodeAddress")
 	cash := p.Func("", "checkDecodeCashAddress")
 	if da == nil || cash == nil {
@@ -240,6 +241,9 @@ func wholeInputRule(p *Program, r *Report, rule string) {
 				if x.Call.Args[0] == addr {
 					if !afterPrefix[v] {
 						return false, "the case-folded input is decoded without a prepended prefix: a mixed-case string that carries its own prefix is folded before the decoder's mixed-case test sees it"
+					}
+					if ok, why := foldsCompletely(p, cal); !ok {
+						return false, "the helper " + FnName(cal) + " applied to the input is not a total ASCII lower-casing: " + why
 					}
 					return true, ""
 				}
@@ -531,4 +535,155 @@ func ownPrefixRule(p *Program, r *Report, rule string) {
 	if n == 0 {
 		r.Unresolved(rule, "prefix + ':' + folded input in DecodeAddress")
 	}
+}
+
+// foldsCompletely (round 6, C01-agent6-m3): h(s string) string is a TOTAL ASCII lower-casing of its argument — every
+// return hands out string(b) for b = []byte(s), and a loop over the whole of b stores into b[i] exactly when b[i] is in
+// 'A'..'Z' (the conditions between the loop header and the store are comparisons of that byte with constants, and
+// together they admit every upper-case letter).  A helper that folds only strings beginning with 'Q', or returns its
+// argument unchanged on some path, leaves upper-case payloads in capitals behind a lower-case prefix.
+func foldsCompletely(p *Program, h *ssa.Function) (bool, string) {
+	if len(h.Params) != 1 || !isStringType(h.Params[0].Type()) || len(h.Blocks) == 0 {
+		return false, "not a one-string helper"
+	}
+	s := ssa.Value(h.Params[0])
+	var buf ssa.Value
+	for _, b := range h.Blocks {
+		for _, in := range b.Instrs {
+			if cv, ok := in.(*ssa.Convert); ok && cv.X == s {
+				if _, isSl := cv.Type().Underlying().(*types.Slice); isSl {
+					buf = cv
+				}
+			}
+		}
+	}
+	if buf == nil {
+		return false, "no []byte copy of the argument"
+	}
+	for _, ret := range returnsOf(h) {
+		cv, ok := ret.Results[0].(*ssa.Convert)
+		if !ok || cv.X != buf {
+			return false, "a return at " + p.Pos(ret.Pos()) + " hands out " + exprString(ret.Results[0]) + " instead of the folded copy"
+		}
+	}
+	// the folding store
+	lc := NewLinCtx(p, h)
+	for _, b := range h.Blocks {
+		for _, in := range b.Instrs {
+			st, ok := in.(*ssa.Store)
+			if !ok {
+				continue
+			}
+			ia, ok := st.Addr.(*ssa.IndexAddr)
+			if !ok || ia.X != buf {
+				continue
+			}
+			hdr := fullRangeInduction(ia.Index, func(v ssa.Value) bool { return v == buf })
+			if hdr == nil {
+				return false, "the folding loop does not run over the whole copy"
+			}
+			// the element
+			var elem ssa.Value
+			for _, bb := range h.Blocks {
+				for _, ii := range bb.Instrs {
+					if ld, ok := ii.(*ssa.UnOp); ok && ld.Op == token.MUL {
+						if ia2, ok := ld.X.(*ssa.IndexAddr); ok && ia2.X == buf && ia2.Index == ia.Index {
+							elem = ld
+						}
+					}
+				}
+			}
+			if elem == nil {
+				return false, "the byte being folded is not read from the copy"
+			}
+			outer := map[ssa.Value]bool{}
+			for _, c := range DomConds(hdr) {
+				outer[c.V] = true
+			}
+			var inner []Cond
+			for _, c := range DomConds(b) {
+				if outer[c.V] || c.At == hdr {
+					continue
+				}
+				bo, _, isB := condBinOp(c)
+				if !isB || !(stripChange(bo.X) == elem || stripChange(bo.Y) == elem) {
+					return false, "the fold of a byte also depends on " + exprString(c.V)
+				}
+				inner = append(inner, c)
+			}
+			lo, hi, okLo, okHi := charInterval(lc, inner, elem)
+			if (okLo && lo > 'A') || (okHi && hi < 'Z') {
+				return false, fmt.Sprintf("only bytes in [%d, %d] are folded, not all of 'A'..'Z'", lo, hi)
+			}
+			// every path from the loop header to the store's block is one of those comparisons: the loop header
+			// dominates, and nothing else can skip the store — checked by the inner conditions being the only ones
+			if len(DomConds(hdr)) > 0 {
+				for _, c := range DomConds(hdr) {
+					if _, _, isB := condBinOp(c); isB {
+						return false, "the folding loop itself runs only under " + exprString(c.V)
+					}
+				}
+			}
+			return true, "every byte in 'A'..'Z' of the whole string is lowered; string(copy) is returned on every path"
+		}
+	}
+	return false, "no store into the copy"
+}
+
+// shadowedCaseRule (round 6, C01-agent6-m2): a tagged switch whose case expressions are run-time values tries them in
+// order; when two of them can be equal the later arm is dead for that configuration.  `switch sep { case len(slpPrefix):
+// … case len(cashPrefix): … }` recognises the cash prefix on mainnet (11 ≠ 12) and never on testnet, chipnet or regtest,
+// where both prefixes have the same length.  In the functions DecodeAddress reaches (root package): two successive
+// equality tests of one tag against non-constant values that are not the same value are reported, unless the first
+// arm's failure falls through to the second test anyway (an if–else-if chain whose first arm ends in the second).
+func shadowedCaseRule(p *Program, r *Report, rule string) int {
+	da := p.Func("", "DecodeAddress")
+	if da == nil {
+		return 0
+	}
+	n := 0
+	for _, fn := range p.Reachable([]*ssa.Function{da}) {
+		if fn.Pkg != da.Pkg {
+			continue
+		}
+		for _, b := range fn.Blocks {
+			iff, ok := lastInstr(b).(*ssa.If)
+			if !ok {
+				continue
+			}
+			c1, ok := iff.Cond.(*ssa.BinOp)
+			if !ok || c1.Op != token.EQL {
+				continue
+			}
+			nb := b.Succs[1]
+			iff2, ok := lastInstr(nb).(*ssa.If)
+			if !ok || len(nb.Instrs) > 8 {
+				continue
+			}
+			c2, ok := iff2.Cond.(*ssa.BinOp)
+			if !ok || c2.Op != token.EQL || c2.Block() != nb {
+				continue
+			}
+			tag, x, y := c1.X, c1.Y, c2.Y
+			if c2.X != tag {
+				continue
+			}
+			if _, isK := x.(*ssa.Const); isK {
+				continue
+			}
+			if _, isK := y.(*ssa.Const); isK {
+				continue
+			}
+			if _, isInt := intBasic(tag.Type()); !isInt {
+				continue
+			}
+			n++
+			// the first arm, when its own test inside fails, must reach the second comparison; otherwise the second
+			// case is lost whenever x == y
+			reach := reachableFrom(b.Succs[0], nil)
+			r.Add(rule, FnName(fn), fmt.Sprintf("cases %s and %s of one switch may be equal: the second is still tried when the first does not apply", exprString(x), exprString(y)),
+				c1.Pos(), reach[nb], "when both values are equal the first arm takes every input and the second arm is dead (cash and SLP prefixes have the same length on testnet, chipnet and regtest)")
+		}
+	}
+	return n
 }
